@@ -142,8 +142,9 @@ func c19ShortFacts(s factSet) string {
 }
 
 type c19Mods struct {
-	updates  []*ssa.MapUpdate // annotation writes on the copy
-	condSets []*ssa.Store     // stores to Status.Conditions
+	updates  []*ssa.MapUpdate   // annotation writes on the copy
+	condSets []*ssa.Store       // stores to Status.Conditions
+	copied   map[ssa.Value]bool // fresh maps that first take every entry of the object's annotations
 	bad      bool
 }
 
@@ -400,7 +401,7 @@ func c19Wire(r *Run, cmds []*c19Cmd, cw *c19CondWrite) {
 // R5: reader side of validate
 
 func c19ValidateReader(r *Run) (*decisionSite, *ssa.Parameter) {
-	site := findDecision(r, "C19.R5")
+	site := c19FindDecision(r)
 	if site == nil {
 		return nil, nil
 	}
@@ -860,7 +861,7 @@ func c19Command(r *Run, c *c19Cmd, run *ssa.Function) *c19CondWrite {
 	if w.Verb == "Patch" {
 		x.patchBase(provs)
 	}
-	mods := x.copyMods(Ovals)
+	mods := x.copyMods(Ovals, Gvals, Evals)
 	var cw *c19CondWrite
 	if c.cond {
 		cw = x.conditionAppend(provs, mods)
@@ -1133,9 +1134,9 @@ func (x *c19Run) patchBase(provs []*c19Prov) {
 }
 
 // copyMods walks every use of the copy, following it into the helpers it is handed to.
-func (x *c19Run) copyMods(Ovals map[ssa.Value]bool) *c19Mods {
+func (x *c19Run) copyMods(Ovals, Gvals, Evals map[ssa.Value]bool) *c19Mods {
 	r, c := x.r, x.c
-	m := &c19Mods{}
+	m := &c19Mods{copied: map[ssa.Value]bool{}}
 	construct := c.label + ": modification of the copy"
 	needTxt := "between DeepCopy and the write the copy is changed only in the documented annotations" + map[bool]string{true: " / by one appended condition", false: ""}[c.cond]
 	bad := func(in ssa.Instruction, what string, more ...string) {
@@ -1248,7 +1249,11 @@ func (x *c19Run) copyMods(Ovals map[ssa.Value]bool) *c19Mods {
 				case isAnn(path):
 					mm, isMM := y.Val.(*ssa.MakeMap)
 					if !isMM {
-						bad(y, "annotation map replaced by a value that is not a new map", y.Val.String())
+						// a map built by a helper: a fresh map that first takes every annotation of the
+						// object read (or of the copy) and then the documented writes
+						if !x.builtAnnotationMap(m, y, Ovals, Gvals, Evals, bad) {
+							bad(y, "annotation map replaced by a value that is not a new map", y.Val.String())
+						}
 						continue
 					}
 					for _, r2 := range refs(mm) {
@@ -1335,6 +1340,91 @@ func (x *c19Run) copyMods(Ovals map[ssa.Value]bool) *c19Mods {
 		r.Check("C19.R2", construct, r.Prog.Pos(instrPos(x.wcall)), x.fn, needTxt, true, fmt.Sprintf("%d annotation write(s), %d condition store(s)", len(m.updates), len(m.condSets)))
 	}
 	return m
+}
+
+// builtAnnotationMap accepts `copy.Annotations = h(obj.Annotations, …)` where the unexported
+// helper h returns, on every return, one fresh map into which it first copies every entry of the
+// map it is handed (an unconditional m[k] = v in a range over that parameter) — the argument being
+// the annotations of the object read or of the copy — and then writes constant keys; those writes
+// are recorded as annotation writes of the command.
+func (x *c19Run) builtAnnotationMap(m *c19Mods, st *ssa.Store, Ovals, Gvals, Evals map[ssa.Value]bool, bad func(ssa.Instruction, string, ...string)) bool {
+	var call *ssa.Call
+	idx := 0
+	switch y := st.Val.(type) {
+	case *ssa.Call:
+		call = y
+	case *ssa.Extract:
+		call, _ = y.Tuple.(*ssa.Call)
+		idx = y.Index
+	}
+	if call == nil {
+		return false
+	}
+	h := staticCallee(&call.Call)
+	if h == nil || !x.inl(h) {
+		return false
+	}
+	var mm *ssa.MakeMap
+	for _, b := range h.Blocks {
+		ret := returnOf(b)
+		if ret == nil || idx >= len(ret.Results) {
+			continue
+		}
+		r0, isMM := ret.Results[idx].(*ssa.MakeMap)
+		if !isMM || (mm != nil && mm != r0) {
+			return false
+		}
+		mm = r0
+	}
+	if mm == nil {
+		return false
+	}
+	copies := 0
+	for _, rr := range refs(mm) {
+		switch u := rr.(type) {
+		case *ssa.DebugRef, *ssa.Lookup, *ssa.Return:
+		case *ssa.MapUpdate:
+			if u.Map != ssa.Value(mm) {
+				bad(u, "the new annotation map is stored into another map")
+				continue
+			}
+			ke, isKE := u.Key.(*ssa.Extract)
+			ve, isVE := u.Value.(*ssa.Extract)
+			if isKE && isVE && ke.Tuple == ve.Tuple && ke.Index == 1 && ve.Index == 2 {
+				if nx, isNext := ke.Tuple.(*ssa.Next); isNext {
+					if rg, isRange := nx.Iter.(*ssa.Range); isRange {
+						par, isPar := rg.X.(*ssa.Parameter)
+						// unconditional in the loop body: the block of the update is entered straight from
+						// the loop test on this iterator
+						uncond := false
+						if preds := u.Block().Preds; len(preds) == 1 && u.Block() == ke.Block() {
+							if iff, isIf := preds[0].Instrs[len(preds[0].Instrs)-1].(*ssa.If); isIf {
+								if okEx, isEx := iff.Cond.(*ssa.Extract); isEx && okEx.Tuple == ssa.Value(nx) && okEx.Index == 0 && preds[0].Succs[0] == u.Block() {
+									uncond = true
+								}
+							}
+						}
+						if isPar && par.Parent() == h && uncond {
+							arg := call.Call.Args[paramIndex(par)]
+							root, pth := accessPath(arg)
+							if (Ovals[root] || Gvals[root] || Evals[root]) && len(pth) > 0 && pth[len(pth)-1] == "Annotations" {
+								copies++
+								continue
+							}
+						}
+					}
+				}
+			}
+			m.updates = append(m.updates, u)
+		default:
+			bad(rr, "the new annotation map is used in an unexpected way", rr.String())
+		}
+	}
+	if copies == 0 {
+		return false
+	}
+	m.copied[mm] = true
+	return true
 }
 
 // ---------------------------------------------------------------------------------------------
@@ -1826,7 +1916,11 @@ func (x *c19Run) annotationMap(provs []*c19Prov, mods *c19Mods) {
 					continue
 				}
 				if _, vv := iunwrap(ev.c, y.Val); vv != nil {
-					if _, isMM := vv.(*ssa.MakeMap); isMM {
+					if mm, isMM := vv.(*ssa.MakeMap); isMM {
+						if mods.copied[mm] {
+							state = 2 // a full copy of the existing annotations plus the writes
+							continue
+						}
 						nCreate++
 						if state != 1 {
 							createOK, cAt = false, y
@@ -2373,8 +2467,13 @@ func c19SymOf(v ssa.Value, word bool) c19Sym {
 	return c19Sym{}
 }
 
-// c19Bindings maps the command word (first word of cobra.Command.Use) to the mode constant the
-// options are built with; word and mode may come through parameters of command-building helpers.
+// c19Bindings maps the command word (first word of cobra.Command.Use) to the constant the options'
+// mode field is built with. The functions that build a cobra command are evaluated on their
+// inlined paths, once per (chain of) call site(s) when word or mode come through parameters: the
+// parameters stand for the constant arguments, branches on them are decided, and the Use string
+// and the constants stored into basic-typed fields of the options are read off the path. The mode
+// field is the stored field whose values tell the command words apart; it must be written nowhere
+// else.
 func c19Bindings(r *Run, c *c19Cmd) (map[string]c19Mode, string) {
 	out := map[string]c19Mode{}
 	named := r.Prog.Named(c.pkg, c.typ)
@@ -2397,128 +2496,204 @@ func c19Bindings(r *Run, c *c19Cmd) (map[string]c19Mode, string) {
 			inPkg[fn] = true
 		}
 	}
-	// constructors: functions returning *options that store a basic-typed parameter into a field
-	ctors := map[*ssa.Function]map[int]string{}
-	modeFields := map[string]bool{}
-	for _, fn := range pkgFns {
-		res := fn.Signature.Results()
-		if res.Len() != 1 || !isOpt(res.At(0).Type()) {
-			continue
+	isUseStore := func(in ssa.Instruction) (*ssa.Store, bool) {
+		st, ok := in.(*ssa.Store)
+		if !ok {
+			return nil, false
 		}
-		fields := map[int]string{}
-		for _, b := range fn.Blocks {
-			for _, in := range b.Instrs {
-				st, ok := in.(*ssa.Store)
-				if !ok {
-					continue
-				}
-				fa, ok := st.Addr.(*ssa.FieldAddr)
-				par, isPar := st.Val.(*ssa.Parameter)
-				if !ok || !isPar || !isOpt(fa.X.Type()) {
-					continue
-				}
-				if _, basic := par.Type().Underlying().(*types.Basic); basic {
-					fields[paramIndex(par)] = fieldName(fa)
-					modeFields[fieldName(fa)] = true
+		fa, isFA := st.Addr.(*ssa.FieldAddr)
+		return st, isFA && fieldName(fa) == "Use" && typeName(fa.X.Type()) == "github.com/spf13/cobra.Command"
+	}
+	// evalStr evaluates a string built from constants and resolved values, left to right; ok=false
+	// when nothing could be evaluated, partial=true when it stopped at an unknown operand
+	var evalStr func(c *icall, v ssa.Value, d int) (string, bool, bool)
+	evalStr = func(ic *icall, v ssa.Value, d int) (string, bool, bool) {
+		cc, vv := iunwrap(ic, v)
+		if s, ok := constString(vv); ok {
+			return s, true, false
+		}
+		if bo, ok := vv.(*ssa.BinOp); ok && bo.Op == token.ADD && d < 8 {
+			l, okL, partL := evalStr(cc, bo.X, d+1)
+			if !okL || partL {
+				return l, okL, true
+			}
+			rr, okR, partR := evalStr(cc, bo.Y, d+1)
+			if !okR {
+				return l, true, true
+			}
+			return l + rr, true, partR
+		}
+		return "", false, true
+	}
+	// grafts of fn: (activation of the caller, call site) pairs, one per chain of call sites inside
+	// the package; the parameters of fn then resolve to the arguments along the chain
+	type graft struct {
+		parent *icall
+		site   *ssa.Call
+	}
+	var graftsOf func(fn *ssa.Function, depth int) []graft
+	graftsOf = func(fn *ssa.Function, depth int) []graft {
+		var sites []*ssa.Call
+		if depth < 3 {
+			for _, cs := range callSitesOf(fn, inPkg) {
+				if call, isCall := cs.(*ssa.Call); isCall {
+					sites = append(sites, call)
 				}
 			}
 		}
-		if len(fields) > 0 {
-			ctors[fn] = fields
+		if len(sites) == 0 {
+			return []graft{{}}
 		}
+		var out []graft
+		for _, call := range sites {
+			for _, gg := range graftsOf(call.Parent(), depth+1) {
+				out = append(out, graft{&icall{id: -1 - depth, fn: call.Parent(), parent: gg.parent, site: gg.site, sub: map[*ssa.Call]*icall{}}, call})
+			}
+		}
+		return out
 	}
-	useSym := func(fn *ssa.Function) c19Sym {
-		var sym c19Sym
+	type cand struct{ fields map[string]string }
+	cands := map[string]*cand{}
+	onPath := map[*ssa.Function]bool{}
+	inl := func(cal *ssa.Function) bool {
+		return inPkg[cal] && r.Prog.IsRuleSite(cal) && cal.Synthetic == "" && !token.IsExported(cal.Name())
+	}
+	for _, fn := range pkgFns {
+		hasUse := false
 		for _, b := range fn.Blocks {
 			for _, in := range b.Instrs {
-				if st, ok := in.(*ssa.Store); ok {
-					if fa, isFA := st.Addr.(*ssa.FieldAddr); isFA && fieldName(fa) == "Use" && typeName(fa.X.Type()) == "github.com/spf13/cobra.Command" {
-						sym = c19SymOf(st.Val, true)
+				if _, ok := isUseStore(in); ok {
+					hasUse = true
+				}
+			}
+		}
+		if !hasUse {
+			continue
+		}
+		paths, ok := enumIPaths(fn, inl, 2000)
+		r.paths += len(paths)
+		if !ok {
+			return out, "path cap exceeded in " + shortFunc(fn)
+		}
+		for _, g := range graftsOf(fn, 0) {
+			for _, p := range paths {
+				p.root.parent, p.root.site = g.parent, g.site
+				feasible := true
+				for _, br := range p.branches {
+					if b, decided := iconstBool(br.c, br.cond); decided && b != br.pol {
+						feasible = false
+						break
+					}
+				}
+				if !feasible {
+					continue
+				}
+				word := ""
+				fields := map[string]string{}
+				for _, ev := range p.events {
+					onPath[ev.c.fn] = true
+					st, isSt := ev.in.(*ssa.Store)
+					if !isSt {
+						continue
+					}
+					if _, isUse := isUseStore(ev.in); isUse {
+						str, okS, partial := evalStr(ev.c, st.Val, 0)
+						switch {
+						case !okS:
+						case strings.ContainsAny(str, " \t"):
+							word = firstWord(str)
+						case !partial:
+							word = str
+						}
+						continue
+					}
+					fa, isFA := st.Addr.(*ssa.FieldAddr)
+					if !isFA || !isOpt(fa.X.Type()) {
+						continue
+					}
+					if _, basic := st.Val.Type().Underlying().(*types.Basic); !basic {
+						continue
+					}
+					_, vv := iunwrap(ev.c, st.Val)
+					if b, isB := constBool(vv); isB {
+						fields[fieldName(fa)] = fmt.Sprint(b)
+					} else if sv, isS := constString(vv); isS {
+						fields[fieldName(fa)] = sv
+					}
+				}
+				p.root.parent, p.root.site = nil, nil
+				if word == "" {
+					continue
+				}
+				if cands[word] == nil {
+					cands[word] = &cand{fields: map[string]string{}}
+				}
+				for f, v := range fields {
+					if old, has := cands[word].fields[f]; has && old != v {
+						cands[word].fields[f] = "\x00conflict"
+					} else {
+						cands[word].fields[f] = v
 					}
 				}
 			}
 		}
-		return sym
 	}
-	var bind func(fn *ssa.Function, word c19Sym, field string, val c19Sym, depth int)
-	bind = func(fn *ssa.Function, word c19Sym, field string, val c19Sym, depth int) {
-		if !word.ok || !val.ok {
-			return
-		}
-		if word.param < 0 && val.param < 0 {
-			out[word.s] = c19Mode{field, val.s}
-			return
-		}
-		if depth > 3 {
-			return
-		}
-		for _, cs := range callSitesOf(fn, inPkg) {
-			args := cs.Common().Args
-			w2, v2 := word, val
-			if word.param >= 0 {
-				if word.param >= len(args) {
-					continue
-				}
-				w2 = c19SymOf(args[word.param], true)
+	// the mode field: present for every documented word, with pairwise distinct values
+	var words []string
+	for w := range c.tables {
+		words = append(words, w)
+	}
+	sort.Strings(words)
+	fieldSet := map[string]bool{}
+	for _, w := range words {
+		if cands[w] != nil {
+			for f := range cands[w].fields {
+				fieldSet[f] = true
 			}
-			if val.param >= 0 {
-				if val.param >= len(args) {
-					continue
-				}
-				v2 = c19SymOf(args[val.param], false)
-			}
-			bind(cs.Parent(), w2, field, v2, depth+1)
 		}
 	}
-	useFns := map[*ssa.Function]bool{}
+	var fs []string
+	for f := range fieldSet {
+		fs = append(fs, f)
+	}
+	sort.Strings(fs)
+	mode := ""
+	for _, f := range fs {
+		seen := map[string]bool{}
+		good := true
+		for _, w := range words {
+			if cands[w] == nil {
+				good = false
+				break
+			}
+			v, has := cands[w].fields[f]
+			if !has || v == "\x00conflict" || seen[v] {
+				good = false
+				break
+			}
+			seen[v] = true
+		}
+		if good && len(words) > 0 {
+			mode = f
+			break
+		}
+	}
+	if mode == "" {
+		return out, ""
+	}
+	for _, w := range words {
+		out[w] = c19Mode{mode, cands[w].fields[mode]}
+	}
+	// the mode field is written nowhere else
 	for _, fn := range pkgFns {
-		word := useSym(fn)
-		if !word.ok {
-			continue
-		}
-		useFns[fn] = true
-		// options built inline next to the cobra command
-		for _, b := range fn.Blocks {
-			for _, in := range b.Instrs {
-				st, ok := in.(*ssa.Store)
-				if !ok {
-					continue
-				}
-				fa, isFA := st.Addr.(*ssa.FieldAddr)
-				if !isFA || !isOpt(fa.X.Type()) {
-					continue
-				}
-				if _, basic := st.Val.Type().Underlying().(*types.Basic); !basic {
-					continue
-				}
-				if v := c19SymOf(st.Val, false); v.ok {
-					modeFields[fieldName(fa)] = true
-					bind(fn, word, fieldName(fa), v, 0)
-				}
-			}
-		}
-		for _, ci := range callsIn(fn) {
-			fields := ctors[staticCallee(ci.Common())]
-			for idx, f := range fields {
-				bind(fn, word, f, c19SymOf(ci.Common().Args[idx], false), 0)
-			}
-		}
-	}
-	// the mode fields are written nowhere else
-	for _, fn := range pkgFns {
-		if ctors[fn] != nil || useFns[fn] {
+		if onPath[fn] {
 			continue
 		}
 		for _, b := range fn.Blocks {
 			for _, in := range b.Instrs {
 				if st, ok := in.(*ssa.Store); ok {
-					if fa, isFA := st.Addr.(*ssa.FieldAddr); isFA && isOpt(fa.X.Type()) && modeFields[fieldName(fa)] {
-						// a field that never served as a mode of a bound word is irrelevant
-						for _, m := range out {
-							if m.field == fieldName(fa) {
-								return out, "mode field " + fieldName(fa) + " is also written in " + shortFunc(fn)
-							}
-						}
+					if fa, isFA := st.Addr.(*ssa.FieldAddr); isFA && isOpt(fa.X.Type()) && fieldName(fa) == mode {
+						return map[string]c19Mode{}, "mode field " + mode + " is also written in " + shortFunc(fn)
 					}
 				}
 			}
@@ -2720,4 +2895,63 @@ func c19CanaryNameFresh(r *Run, site *decisionSite, utd *ssa.Parameter) {
 	if nFns == 0 {
 		r.Check("C19.R9", "canary name", "-", "-", "a function reachable from the ExtendedDaemonSet Reconcile assigns status.canary", false, "none found")
 	}
+}
+
+// c19FindDecision anchors the promotion decision by what it does for validate: the function
+// reachable from the ExtendedDaemonSet Reconcile that chooses between two replica sets (takes the
+// ExtendedDaemonSet and at least two replica sets, returns a replica set) and consults
+// IsCanaryDeploymentValid, directly or through its helpers. (That status.activeReplicaSet is stored
+// from its result is C05.R4's clause.)
+func c19FindDecision(r *Run) *decisionSite {
+	rec, reach := edsReconcile(r)
+	if rec == nil {
+		return nil
+	}
+	valid := r.Prog.Func(pkgEDS, "IsCanaryDeploymentValid")
+	if valid == nil {
+		r.Fatal("anchor %s.IsCanaryDeploymentValid not found", pkgEDS)
+		return nil
+	}
+	isERS := func(t types.Type) bool { return isPtrToNamed(t, pkgAPI, "ExtendedDaemonSetReplicaSet") }
+	var cands []*ssa.Function
+	for _, fn := range sortedFuncs(reach) {
+		if !r.Prog.IsRuleSite(fn) || fn == rec {
+			continue
+		}
+		res := fn.Signature.Results()
+		if res.Len() == 0 || !isERS(res.At(0).Type()) {
+			continue
+		}
+		nERS, hasEDS := 0, false
+		for _, p := range fn.Params {
+			if isERS(p.Type()) {
+				nERS++
+			}
+			if isPtrToNamed(p.Type(), pkgAPI, "ExtendedDaemonSet") {
+				hasEDS = true
+			}
+		}
+		if nERS < 2 || !hasEDS || !r.Prog.reachableFuncs(fn)[valid] {
+			continue
+		}
+		cands = append(cands, fn)
+	}
+	if len(cands) != 1 {
+		r.Check("C19.R5", "promotion decision", "-", "-", "one function reachable from the ExtendedDaemonSet Reconcile chooses between two replica sets and consults IsCanaryDeploymentValid", false, fmt.Sprintf("%d candidate(s)", len(cands)))
+		return nil
+	}
+	fn := cands[0]
+	var call *ssa.Call
+	n := 0
+	for _, cs := range callSitesOf(fn, reach) {
+		if c, ok := cs.(*ssa.Call); ok {
+			call = c
+			n++
+		}
+	}
+	r.Check("C19.R5", "promotion decision", r.Prog.Pos(fn.Pos()), shortFunc(fn), "the promotion decision is called from one site under the ExtendedDaemonSet Reconcile", n == 1, fmt.Sprintf("%d call site(s)", n))
+	if n != 1 {
+		return nil
+	}
+	return &decisionSite{decision: fn, call: call, caller: call.Parent()}
 }
